@@ -78,6 +78,13 @@ func tValues() []tValue {
 		{"[[s,{k:s}],[{j:1},{i:[{k:s},{h:2}]}]]", func() *LNode {
 			return LA(LA(s(), LO("k", s())), LA(LO("j", LN("1")), LO("i", LA(LO("k", s()), LO("h", LN("2"))))))
 		}},
+		// the same text as values of different JSON types side by side (anything keyed by the printed value confuses them)
+		{"[\"90210\",90210,\"true\",true,\"null\",null,\"0\",0,\"1.50e+3\",1.50e+3]", func() *LNode {
+			return LA(LS("90210"), LN("90210"), LS("true"), LB(true), LS("null"), LNul(), LS("0"), LN("0"), LS("1.50e+3"), LN("1.50e+3"))
+		}},
+		{"[90210,\"90210\",true,\"true\",null,\"null\"]", func() *LNode {
+			return LA(LN("90210"), LS("90210"), LB(true), LS("true"), LNul(), LS("null"))
+		}},
 		{"[s,$s]", func() *LNode { return LA(s(), LS("$s")) }},
 		{"[1,[2,[3]]]", func() *LNode { return LA(LN("1"), LA(LN("2"), LA(LN("3")))) }},
 		{"{k:s}", func() *LNode { return LO("k", s()) }},
